@@ -5,9 +5,10 @@ import Gimli.Lemmas.ConvLineSim
 `line_rows_preserved`: reading (C04's reader Model) the program that the conversion Model
 (`Model/ConvLineRows.lean`) makes the writer Model (C13) emit returns exactly the source's rows.
 Built on the simulation lemmas of `Lemmas/ConvLineSim.lean` (`execute_shift`: the reader's step and
-the converter's step are the same step up to the `set_address` offset; `readRowLoop_sim`: one
-`read_row` against the reader's next row; `convLoop_sim`: the whole loop with the writer and the
-reader of its output) and on C13's `generate_row_correct`, `set_address_correct`,
+the converter's step are the same step up to the `set_address` offset; `execute_frozen`: inside a
+tombstone neither moves the address; `readRowLoop_sim`: one `read_row` against the reader's next
+reported row, skipped rows included; `convLoop_sim`: the whole loop with the writer and the reader
+of its output) and on C13's `generate_row_correct`, `set_address_correct`,
 `end_sequence_correct`. The other theorems of the component are in `Props/C12Line.lean`.
 -/
 namespace Gimli.Props.C12
@@ -17,35 +18,41 @@ open Gimli Gimli.Line Gimli.WLine Gimli.ConvLineRows Gimli.Props.C13
 /-- **Rows are preserved.** For every source header the reader accepts (`Params.Valid`, C04's
 `header_valid`) without VLIW (`maximum_operations_per_instruction = 1`), every string section
 content, both build modes, and every instruction list that is `Tame` from the initial registers —
-the reader runs it without an error, every `DW_LNE_set_address` is accepted (no tombstones), line
-numbers stay below 2^63 (finding C13-3) — : **if the conversion succeeds** (`ConvertLineProgram::new`
-and the whole `convert` loop: it may fail with `InvalidFileIndex`, `InvalidDirectoryIndex`,
-`InvalidLineBase`, `UnsupportedLineInstruction`, `MissingLineEndSequence`, …), then the program it
-builds keeps the source header's parameters, is not left inside a sequence, and **reading its
-instructions (C04's reader, from the initial registers, under the header the writer emits) returns
-exactly the source's rows, in order**: the same address, op_index, line, column, is_stmt,
-basic_block, prologue_end, epilogue_begin, isa and discriminator, the file register mapped through
-the index mapping `files` (`line_files_preserved` says what the mapped entry is), and each
-`end_sequence` row at the same address. Whatever opcodes the source used — special opcodes,
-`const_add_pc`, `fixed_advance_pc`, `advance_pc`, `DW_LNE_define_file`, unknown opcodes,
-`DW_LNE_set_address` in the middle of a sequence, several sequences — and whichever the writer
-chooses. All the conditions the writer needs (aligned offsets, monotone operation pointer,
-addresses inside the address size, operation advances that fit) are *derived* here from the
-reader's behaviour and the conversion's success; none is assumed.
+the reader runs it without an error and the line numbers of the rows it reports stay below 2^63
+(finding C13-3) — : **if the conversion succeeds** (`ConvertLineProgram::new` and the whole
+`convert` loop: it may fail with `InvalidFileIndex`, `InvalidDirectoryIndex`, `InvalidLineBase`,
+`UnsupportedLineInstruction`, `MissingLineEndSequence`, …), then the program it builds keeps the
+source header's parameters, is not left inside a sequence, and **reading its instructions (C04's
+reader, from the initial registers, under the header the writer emits) returns exactly the rows
+that `LineRows::next_row` reports for the source (`vis`: C04's `run` on the decoded instructions),
+in order**: the same address, op_index, line, column, is_stmt, basic_block, prologue_end,
+epilogue_begin, isa and discriminator, the file register mapped through the index mapping `files`
+(`line_files_preserved` says what the mapped entry is), and each `end_sequence` row at the same
+address; and the written program has no skipped row of its own. Whatever opcodes the source used —
+special opcodes, `const_add_pc`, `fixed_advance_pc`, `advance_pc`, `DW_LNE_define_file`, unknown
+opcodes, several sequences — and **whatever `DW_LNE_set_address` values**: at the start or in the
+middle of a sequence, several in a row, directly before the end, accepted, lower than the current
+address or a tombstone value (−1/−2 of the address size). Rows the reader skips (C04's `skipRow`:
+inside a tombstone, except the end of a sequence that has already reported rows) are not brought
+back, rows it reports are not lost, a sequence whose tail is tombstoned is ended where the reader
+ends it, a wholly tombstoned sequence leaves nothing. All the conditions the writer needs (aligned
+offsets, monotone operation pointer, addresses inside the address size, operation advances that
+fit, `set_address` not below the previous row) are *derived* here from the reader's behaviour and
+the conversion's success; none is assumed. This lifts `line_addresses_preserved` (addresses only,
+abstract instructions) to all registers and the real instruction set.
 
-Not covered by this theorem (covered by `line_addresses_preserved` for the address dimension and
-by the differential oracle of `c12-line`): programs with tombstoned `set_address` values, and VLIW
-programs (`line_rows_preserved_partial`; findings C12-L4, C12-L5, C13-4 live there). -/
+Not covered by this theorem: VLIW programs (`line_rows_preserved_partial` and the differential
+oracle of `c12-line`; findings C12-L4, C12-L5, C13-4 live there). -/
 theorem line_rows_preserved (m : Mode) (en : Endian) (format : Format) (strs : Strs) (hd : Header)
     (tabs : Tabs) (is : List Instr) (st : CSt)
-    (hvalid : hd.p.Valid) (hmax : hd.p.maxOps = 1) (htame : Tame hd.p (Row.new hd.p) is)
+    (hvalid : hd.p.Valid) (hmax : hd.p.maxOps = 1) (htame : Tame hd.p (Row.new hd.p) false is)
     (hconv : convertProgram m strs hd tabs is none = .ok st) :
     st.prog.enc = encOf hd.p ∧ st.prog.inSequence = false ∧
     ∀ bout : Bool,
       (traceInstrs (readerParams en format hd.p.addrSize (encOf hd.p))
           (Row.new (readerParams en format hd.p.addrSize (encOf hd.p))) bout
           (st.prog.instrs.map (WInstr.toInstr hd.p.version))).map obsOut =
-        (traceInstrs hd.p (Row.new hd.p) false is).map
+        (vis hd.p (Row.new hd.p) false is).map
           (obsIn (fun i => fileRaw hd.p.version (st.files.getD i 0))) := by
   unfold convertProgram at hconv
   cases h0 : convNew m strs hd tabs with
@@ -65,7 +72,7 @@ theorem line_rows_preserved (m : Mode) (en : Endian) (format : Format) (strs : S
       · rw [if_neg hin] at hconv
         simp only [CRes.pure_eq, CRes.ok.injEq] at hconv
         subst hconv
-        obtain ⟨hlb, q1, q2, q3, q4, q5, q6, q7⟩ := convNew_spec m strs hd tabs st0 h0
+        obtain ⟨hlb, q1, q2, q3, q4, q5, q6, q7, q8⟩ := convNew_spec m strs hd tabs st0 h0
         obtain ⟨v2, v5, hasz, hmin1, _, hmax1, _, hlb1, _, _, hlr2, _⟩ := hvalid
         have henc : EncOk st0.prog.enc := by
           rw [q5]; exact ⟨hlb1, by show hd.p.lineBase ≤ 0; omega, by show 0 < hd.p.lineBase + ((hd.p.lineRange : Nat) : Int); omega, hlr2, hmin1, hmax1⟩
@@ -73,47 +80,39 @@ theorem line_rows_preserved (m : Mode) (en : Endian) (format : Format) (strs : S
           refine ⟨by rw [q6]; rfl, ?_, by rw [q6]; rfl, by simp [Row.new]⟩
           rw [q6, q7]; simp [shift, Row.new]
         obtain ⟨new, more, g1, g2, g3, g4⟩ := convLoop_sim m en format hd.p.addrSize strs hd.p hmax hasz
-          (is.length + 1) is st0 stf (Row.new hd.p) false 0
+          (is.length + 1) is st0 stf (Row.new hd.p) 0
           (Row.new (readerParams en format hd.p.addrSize st0.prog.enc)) (by omega) h1
-          (by rw [q5]; exact ⟨rfl, rfl, rfl, rfl⟩) henc (by rw [q5]; exact v5) hrel
-          (by rw [reset_new]; exact htame)
+          (by rw [q5]; exact ⟨rfl, rfl, rfl, rfl⟩) henc (by rw [q5]; exact v5) (Or.inr hrel)
+          (by rw [reset_new, q8]; exact htame)
           (by
             refine ⟨by rw [q2, q5]; exact (rowOf_initial en format hd.p.addrSize (encOf hd.p) v5).symm,
-              by rw [q2]; rfl, by rw [q2]; rfl, by rw [q3]; rfl, ?_, ?_, ?_, by simp [Row.new, q7]⟩
+              by rw [q2]; rfl, by rw [q2]; rfl, by rw [q3]; rfl, ?_, ?_, ?_, by simp [Row.new, q7],
+              fun _ => ⟨rfl, by rw [q2]; rfl⟩⟩
             · rw [q2]; show (1 : Nat) < 2 ^ 63; decide
             · rw [q2]; show 0 % _ = 0; exact Nat.zero_mod _
             · rw [q2]; show 0 + 0 ≤ _; exact Nat.zero_le _)
         refine ⟨by rw [g3, q5], by simpa using hin, fun bout => ?_⟩
         have := g4 bout
-        rw [reset_new, q5] at this
+        rw [reset_new, q5, q8] at this
         rw [g1, q1, List.nil_append]
         exact this
 
 /-! ## non-vacuity -/
 
-instance decTame (h : Params) : (R : Row) → (is : List Instr) → Decidable (Tame h R is)
-  | _, [] => isTrue trivial
-  | R, ins :: is => by
+instance decTame (h : Params) : (R : Row) → (b : Bool) → (is : List Instr) → Decidable (Tame h R b is)
+  | _, _, [] => isTrue trivial
+  | R, b, ins :: is => by
     rw [Tame]
-    have d1 : Decidable (∀ a, setAddrVal ins = some a → R.address ≤ a ∧ a < minTombstone h.addrSize) := by
-      cases hs : setAddrVal ins with
-      | none => exact isTrue (fun a ha => by cases ha)
-      | some a =>
-        exact decidable_of_iff (R.address ≤ a ∧ a < minTombstone h.addrSize)
-          ⟨fun hx b hb => by cases hb; exact hx, fun hx => hx a rfl⟩
-    have d2 : Decidable (match execute h R ins with
-        | (_, .err _) => False
-        | (R', .noEmit) => Tame h R' is
-        | (R', .emit) => R'.line < 2 ^ 63 ∧ Tame h (reset h R') is) := by
-      cases hx : execute h R ins with
-      | mk R' x =>
-        cases x with
-        | err e => exact isFalse (fun hf => hf)
-        | noEmit => exact decTame h R' is
-        | emit =>
-          have := decTame h (reset h R') is
-          exact inferInstanceAs (Decidable (R'.line < 2 ^ 63 ∧ Tame h (reset h R') is))
-    exact inferInstanceAs (Decidable (_ ∧ _))
+    cases hx : execute h R ins with
+    | mk R' x =>
+      cases x with
+      | err e => exact isFalse (fun hf => hf)
+      | noEmit => exact decTame h R' b is
+      | emit =>
+        have d1 := decTame h (reset h R') b is
+        have d2 := decTame h (reset h R') (!R'.endSequence) is
+        exact inferInstanceAs (Decidable (if skipRow R' b then Tame h (reset h R') b is
+          else R'.line < 2 ^ 63 ∧ Tame h (reset h R') (!R'.endSequence) is))
 
 /-- version 4, min_inst_len 2, no VLIW, two files -/
 def lineHdRows : Header :=
@@ -131,8 +130,33 @@ def lineProgRows : List Instr :=
    .copy, .endSequence]
 
 example : lineHdRows.p.Valid ∧ lineHdRows.p.maxOps = 1 := by decide
-example : Tame lineHdRows.p (Row.new lineHdRows.p) lineProgRows := by decide
+example : Tame lineHdRows.p (Row.new lineHdRows.p) false lineProgRows := by decide
 example : lineMap (convertProgram .debug lineNoStrs lineHdRows lineNoTabs lineProgRows none) =
     some [0, 0, 1, 2] := by decide
+
+/-- tombstones: a refused (lower) `set_address` in the middle of a sequence and the rows after it,
+an accepted one after it, a tail tombstoned by −1 before the end of a sequence that has reported
+rows (its end row is still reported, at the frozen address), a wholly tombstoned sequence (−2:
+nothing reported), then an ordinary sequence at a lower address -/
+def lineProgTomb : List Instr :=
+  [.setAddress 0x1000, .copy, .advancePc 2, .setAddress 0x10, .special 0x4b, .copy,
+   .setAddress 0x2000, .special 20, .advancePc 1, .setAddress (2 ^ 64 - 1), .advancePc 3, .copy, .endSequence,
+   .setAddress (2 ^ 64 - 2), .copy, .advancePc 1, .copy, .endSequence,
+   .setAddress 0x800, .setFile 2, .copy, .advancePc 5, .endSequence]
+
+/-- (address, line, end_sequence) of the reported rows; the number of skipped ones -/
+def lineVisSummary (h : Params) (is : List Instr) : List (Nat × Nat × Bool) × Nat :=
+  ((vis h (Row.new h) false is).filterMap (fun e => match e with
+      | .row r => some (r.address, r.line, r.endSequence)
+      | _ => none),
+   ((traceInstrs h (Row.new h) false is).filter (fun e => !e.visible)).length)
+
+example : Tame lineHdRows.p (Row.new lineHdRows.p) false lineProgTomb := by decide
+example : lineVisSummary lineHdRows.p lineProgTomb =
+    ([(0x1000, 1, false), (0x2000, 4, false), (0x2002, 4, true), (0x800, 1, false), (0x80a, 1, true)], 6) := by
+  decide
+example : lineInstrs (convertProgram .debug lineNoStrs lineHdRows lineNoTabs lineProgTomb none) =
+    some [.setAddress (some 0x1000), .copy, .setAddress (some 0x2000), .special 21, .advancePc 1, .endSequence,
+          .setAddress (some 0x800), .setFile 1, .copy, .advancePc 5, .endSequence] := by decide
 
 end Gimli.Props.C12
